@@ -44,6 +44,8 @@ def run_sp(case):
         classes.add("priorities that differ only in their fractional part")
     if any(w[2] == 0 for w in case["wl"]):
         classes.add("zero-length packet")
+    if case.get("probe_all"):
+        classes.add("counters of silent flows polled")
     fl = {f for f, _ in case["table"]}
     if case.get("f2c") and any(c in fl and c != f for f, c in case["f2c"]):
         classes.add("flow2class maps onto other flows' ids")
@@ -77,7 +79,9 @@ def strategy(tier):
                                 kgen.weighted([(schedlab.sched_workload(t[0], 45 if big else 28, exact=True, sizes=SIZES0), 3),
                                                (schedlab.sched_workload(t[0], 30, static=True), 1)])).map(
                 lambda rw: {"kind": "SP", "exact": True, "rate": rw[0], "table": [[f, v] for f, v in zip(t[0], t[1])],
-                            "f2c": sp_f2c(t[0], t[2]), "wl": rw[1]}))
+                            "f2c": sp_f2c(t[0], t[2]), "wl": rw[1],
+                            # somebody polls the counters of every configured flow, also of flows that have not sent yet
+                            "probe_all": len(rw[1]) % 2 == 0, "probe_from": [0, 1 / 16, 1 / 4][len(rw[1]) % 3]}))
     return st.integers(2, 5).flatmap(build)
 
 
@@ -91,7 +95,7 @@ PROP = Property(
     facets=[Facet("sp", strategy, run_sp, quick=1200, thorough=8000,
                   essential=[">=2 levels backlogged at >=2 service starts", "higher level served over waiting lower level",
                              "more urgent arrival during a transmission", "equal priorities backlogged",
-                             "flow2class maps onto other flows' ids", "priorities that differ only in their fractional part"])],
+                             "flow2class maps onto other flows' ids", "priorities that differ only in their fractional part", "counters of silent flows polled"])],
     assumptions=["'waiting at that instant' = arrival observed (tap order) before the previous exit; same-instant arrivals after it "
                  "may or may not have been seen by the scheduler"],
 )
